@@ -3026,7 +3026,9 @@ class Set(Collection):
         if setdata is None or not setdata.is_fully_loaded: setdata = attr.load(obj)
         reverse = attr.reverse
         if reverse.is_collection and attr.py_type._subclasses_:
-            attr.py_type._load_many_(setdata)  # items of many-to-many collection can be seeds of the base class
+            cache = obj._session_cache_
+            if cache is not None and cache.is_alive:  # after the db_session is over loaded items remain readable as is
+                attr.py_type._load_many_(setdata)  # items of many-to-many collection can be seeds of the base class
         if not reverse.is_collection and reverse.pk_offset is None:
             added = setdata.added or ()
             for item in setdata:
